@@ -6,6 +6,7 @@ use crate::framework::{Ctx, Report, Tier};
 pub mod c01;
 pub mod c12;
 pub mod c13;
+pub mod c15;
 pub mod jobs;
 
 pub struct CheckDef {
@@ -25,6 +26,7 @@ pub fn all() -> Vec<CheckDef> {
     v.extend(jobs::defs());
     v.push(c12::def());
     v.push(c13::def());
+    v.push(c15::def());
     v
 }
 
